@@ -8,8 +8,9 @@ import propbase
 
 ID = "C12"
 MODULE = "HttpcoreModel.Props.C12"
-THEOREMS = [f"Httpcore.C12.{n}" for n in ("slot_accounting", "open_within_limit", "settings_limit", "one_before_settings", "no_wedge_partial",
-                                           "settings_not_below_inflight", "wedge_reachable", "own_stream_only", "interleaving_independent",
+THEOREMS = [f"Httpcore.C12.{n}" for n in ("slot_accounting", "open_within_limit", "open_success", "settings_limit", "one_before_settings",
+                                           "debt_only_from_lowering", "no_wedge", "settings_never_blocks", "slot_available_when_idle",
+                                           "wedge_reachable_107", "own_stream_only", "interleaving_independent",
                                            "slot_before_stream_id", "settings_change_modelled")]
 TRUSTED = [
     "Lean 4.33 kernel; axioms per theorem under coverage.theorems",
@@ -22,11 +23,13 @@ TRUSTED = [
 ASSUMPTIONS = ["the semaphore hands permits over in FIFO order (anyio / trio semaphores do; the threaded variant is C08's subject)",
                "fair environment in the drain phase: the server answers every stream and returns all credit, every network operation completes",
                "h2 (framing, HPACK, its own stream state machine) is trusted"]
-LEVEL_TEXT = ("Lean 4 theorems for every sequence of SETTINGS changes / stream openings / stream ends: permits + open streams = current limit ≤ 100, a "
-              "stream opens only below the limit advertised last and never while it is being lowered, one stream until SETTINGS arrive; event routing "
-              "delivers to a stream exactly its own events in order for every interleaving. Progress is proved only while the reader is not blocked "
-              "in the semaphore (no_wedge_partial); the full claim is false and the counterexample is a theorem (wedge_reachable, finding F-C12-a). "
-              "Tied by the Slots lock-step and by exploring the real connection against an interactive h2 server.")
+LEVEL_TEXT = ("Lean 4 theorems for every sequence of SETTINGS changes (up and down, also below the number of streams in flight) / stream openings / "
+              "stream ends: permits + open streams = limit in force + permits still withheld, 1 <= limit <= 100, a stream opens only if, counting "
+              "it, no more are open than the limit advertised last, one stream until SETTINGS arrive; the reader never waits for the semaphore, so "
+              "some open stream can always make progress (no_wedge) and a request gets its slot once the streams have ended; event routing "
+              "delivers to a stream exactly its own events in order for every interleaving. The 1.0.7 dead-lock (F-C12-a) is kept as a theorem "
+              "about the old bookkeeping (wedge_reachable_107). Tied by the Slots lock-step and by exploring the real connection against an "
+              "interactive h2 server.")
 LEVEL_NOTE = ("Partial: the model covers the bookkeeping (slots, routing); the interplay with locks and the event loop is explored, not proved: random "
               "schedules under asyncio and trio where the harness chooses every server frame and every completion. Cancellation while a request is "
               "still being *sent* is outside this property's quantifier (it can drop frames of other streams; see DESIGN §7).")
@@ -60,13 +63,15 @@ def run(ctx, driver):
         rec.evals += 1
         rec.distinct.add(tuple(applied))
         rec.dist["slots:ops"] += len(applied)
-        rec.dist["slots:blocked-states"] += sum(1 for s in out if s.endswith("blocked=1"))
+        rec.dist["slots:states-with-debt"] += sum(1 for s in out if not s.endswith("debt=0"))
+        if any(s.startswith("BLOCKED") for s in out):
+            rec.fail("C12:reader-blocked-in-semaphore", {}, {"ops": applied, "impl": out})
         rec.dist["slots:waits"] += sum(1 for s in out if s.startswith("wait"))
         if ans is not None:
             m = ans.split(";")[2:]
             if m != out:
                 rec.disagree("slots", {"ops": applied, "impl": out, "model": m})
-        if len(rec.samples) < 2 and any(s.endswith("blocked=1") for s in out):
+        if len(rec.samples) < 2 and any(not s.endswith("debt=0") for s in out):
             rec.samples.append({"ops": applied, "impl": out})
     # ---- exploration of the real connection --------------------------------------------------------------------------
     h2x.explore(ctx, rec, ID, PROFILES["up"], 120, 3000, WANT)
@@ -83,8 +88,8 @@ def run(ctx, driver):
         if outcome != "ok" or got != 1000 or errs:
             rec.fail("C12:stream-starved-by-abandoned-response", {}, {"abandoned_bytes": size, "outcome": outcome, "received": got, "server_errors": errs})
     return rec.finish("C12 slots lock-step + interactive HTTP/2 exploration",
-                      "B1: random sequences of SETTINGS(n) / acquire / _response_closed on a live AsyncHTTP2Connection vs H2.Slots, state compared after "
-                      "every op. Exploration: 2-6 concurrent requests (with and without bodies; read, hold or abandon the response; cancel while "
+                      "B1: random sequences of SETTINGS(n) / the acquire loop (compiled from the current source text) / _response_closed on a live "
+                      "AsyncHTTP2Connection vs H2.Slots, state (permits, held, limit, debt) compared after every op. Exploration: 2-6 concurrent requests (with and without bodies; read, hold or abandon the response; cancel while "
                       "waiting for or reading it) on one connection under asyncio and trio; the harness picks every server frame (HEADERS / DATA "
                       "pieces / END_STREAM per stream in any interleaving, RST_STREAM, SETTINGS MAX_CONCURRENT_STREAMS up and down, PING), cuts them "
                       "into reads, and completes every client operation; oracles: every caller gets exactly its own headers and body (prefix-checked "
